@@ -694,7 +694,7 @@ def k8(prog, tier="quick"):
             rc = "an exception leaves main (%s)" % t
         return rc, cout.text(), cerr.text()
 
-    def expected(flags, files, openable, extra, arg_values, plan, query_ok):
+    def expected(flags, files, openable, extra, arg_values, plan, query_ok, count_of_failed=False):
         out, err = [], []
         c, q, s_, H, h = (f in flags for f in "cqsHh")
         if not query_ok:
@@ -751,6 +751,8 @@ def k8(prog, tier="quick"):
                     err.append("dwgrep: %s: %s\n" % (header, failed))
                 if not q:
                     errors = True
+                if c and not q and count_of_failed:
+                    out.append((header + ":" if with_header else "") + "%d\n" % count)
             elif c and not q:
                 out.append((header + ":" if with_header else "") + "%d\n" % count)
         return (2 if errors else (0 if match else 1)), "".join(out), "".join(err)
@@ -788,8 +790,9 @@ def k8(prog, tier="quick"):
             for files, openable in filesets:
                 for extra in extras:
                     for style in styles:
-                        if "c" in flags and style.startswith("throw"):
-                            continue          # what -c prints for an input whose execution fails half-way is not documented
+                        # what -c prints for an input whose execution fails half-way is not documented: either nothing or the results
+                        # counted so far is accepted for that input; the counts of the other inputs are documented all the same
+                        lenient = "c" in flags and style.startswith("throw")
                         for positional in (False, True):
                             if positional and (flags or extra):
                                 continue
@@ -805,7 +808,7 @@ def k8(prog, tier="quick"):
                                  "throw-other": "raise something that is not a std::exception for some combinations"}[style])
                             if got[0] != want[0]:
                                 bad.setdefault("status", "%s exits with %s; documented status is %s" % (what, got[0], want[0]))
-                            elif got[1] != want[1]:
+                            elif got[1] != want[1] and not (lenient and got[1] == expected(flags, files, openable, extra, arg_values, plan, True, True)[1]):
                                 bad.setdefault("stdout", "%s writes to stdout %r; documented output is %r" % (what, got[1], want[1]))
                             elif want[2] is not None and got[2] != want[2]:
                                 bad.setdefault("stderr", "%s writes the diagnostics %r; expected %r" % (what, got[2], want[2]))
